@@ -15,6 +15,7 @@ import (
 	"pgregory.net/rapid"
 
 	"verif/harness/puppet"
+	"verif/harness/simnet"
 	"verif/harness/vfx"
 	"verif/harness/wire"
 )
@@ -39,6 +40,9 @@ type Plan struct {
 	StartInc int // extra UpdateNode calls at the start so the incarnation is not 1
 	Meta     string
 	Steps    []Step
+	// StartupInc > 0: while Create is still running (inside the delegate's NodeMeta call; the listeners are already
+	// up) a peer's memory of an earlier life of this node arrives: alive{self, incarnation StartupInc, other metadata}
+	StartupInc uint32 `json:",omitempty"`
 }
 
 func genStep(t *rapid.T) Step {
@@ -69,6 +73,7 @@ func genPlan(t *rapid.T) Plan {
 		StartInc: rapid.IntRange(0, 3).Draw(t, "startinc"),
 		Meta:     rapid.SampledFrom([]string{"", "m0"}).Draw(t, "meta0"),
 		Steps:    rapid.SliceOfN(rapid.Custom(genStep), 1, 12).Draw(t, "steps"),
+		StartupInc: rapid.SampledFrom([]uint32{0, 0, 0, 1, 2, 7, 1 << 20}).Draw(t, "startup"),
 	}
 }
 
@@ -95,9 +100,20 @@ func run(pl Plan) (res vfx.Result) {
 		return done()
 	}
 	conf := puppet.NodeConf{Name: "n0", IP: "10.0.0.1", Port: 7946, IndirectChecks: 3, ProtocolVersion: pl.PV, Meta: []byte(pl.Meta)}
-	p, err := puppet.New(pl.Seed, conf)
+	p, err := puppet.NewOnPre(simnet.New(pl.Seed), pl.Seed, conf, func(p *puppet.Puppet) {
+		if pl.StartupInc == 0 {
+			return
+		}
+		p.Rec.OnNodeMeta = func() {
+			c := puppet.Claim{Kind: "alive", Node: "n0", Inc: pl.StartupInc, Addr: []byte{10, 0, 0, 1}, Port: 7946, Meta: []byte("previous-life"), Vsn: conf.Vsn()}
+			p.Inject("10.0.0.9:7946", [][]byte{c.Leaf()}, puppet.Carrier{})
+		}
+	})
 	if err != nil {
 		return fail("create: %v", err)
+	}
+	if pl.StartupInc > 0 {
+		labels["claim-during-startup"] = true
 	}
 	defer func() {
 		p.Shutdown()
@@ -152,8 +168,11 @@ func run(pl Plan) (res vfx.Result) {
 	if err != nil {
 		return fail("%v", err)
 	}
-	if int(cur.Inc) != 1+pl.StartInc {
+	if pl.StartupInc == 0 && int(cur.Inc) != 1+pl.StartInc {
 		return fail("after setup: own incarnation %d, expected %d", cur.Inc, 1+pl.StartInc)
+	}
+	if pl.StartupInc > 0 && cur.Inc <= pl.StartupInc {
+		return fail("after setup: own incarnation %d is not above the claim (incarnation %d, other metadata) that arrived during start-up", cur.Inc, pl.StartupInc)
 	}
 	selfIP := []byte{10, 0, 0, 1}
 	ownVsn := conf.Vsn()
